@@ -1030,6 +1030,9 @@ func vhlcRunCase(c vhlcCase) (out vhlcCaseOut) {
 	}()
 	// watchdog: generous (every step may wait 5 s on a broken tree)
 	limit := time.Duration(20+6*len(c.Ops)) * time.Second
+	for _, op := range c.Ops {
+		limit += time.Duration(op.Ms) * time.Millisecond // ops that wait on purpose (sleep, blackhole, restore)
+	}
 	select {
 	case o := <-resCh:
 		return o
